@@ -316,6 +316,19 @@ def main():
                 mine = sorted(oid for oid, pr in d.get('obligations', {}).items() if pid in pr)
                 undecided.append('unit %s: lost anchor: %s could not be kept under contract after the change (%s); undecided obligations: %s' % (unit, d['fn'].split('::')[-1], d['reason'][:300], ', '.join(mine) or 'safety'))
             trusted.add('DEGRADED in this run (body not verified): %s [%s]' % (d['fn'], d['reason'][:120]))
+        for g in meta.get('gone_fns', []):
+            trusted.add('GONE: %s no longer exists in /repo; its obligations (%s) are void, its former callers are verified against the code that replaced the call' % (g['fn'], ', '.join(g['void_obligations'])))
+        for g in meta.get('renamed_fns', []):
+            trusted.add('RENAMED: the contract of %s was applied to %s (same body as in the baseline)' % (g['fn'], g['now']))
+        # obligations that carry the pseudo-property ALL (the meaning of a construct other contracts rely on): a failure
+        # makes the property undecided, never violated
+        for oid, o in meta['obligations'].items():
+            if 'ALL' in o['props'] and oid in failed_obs:
+                undecided.append('unit %s: lost anchor: %s no longer holds (%s): contracts that rely on it have lost their meaning' % (unit, oid, failed_obs[oid][0]['msg'][:120]))
+        for (a, b, q, saf) in meta['fn_ranges']:
+            oid = q.split('::')[-1] + '.safety'
+            if 'ALL' in saf and oid in failed_obs:
+                undecided.append('unit %s: lost anchor: %s of %s no longer holds: contracts that rely on it have lost their meaning' % (unit, oid, q))
         # tagged obligations of this property
         for oid, o in meta['obligations'].items():
             if pid not in o['props']: continue
@@ -441,7 +454,8 @@ def main():
     for f in list(violations):
         fm = fn_meta.get(f.get('fn') or '')
         if not fm or f.get('kind') not in ('clause', 'safety'): continue
-        changed = fn_base.get(fm['fn']) not in (None, fm['sha256'])
+        fb0 = fn_base.get(fm['fn'])
+        changed = (fb0.get('sha') if isinstance(fb0, dict) else fb0) not in (None, fm['sha256'])
         if fm.get('rebound') or (fm.get('annotated_body') and changed):
             if not f.get('witness'):
                 try:
@@ -526,7 +540,7 @@ def main():
         b[pid] = {k: True for k in obligations_seen if k not in failed_set}
         json.dump(b, open(os.path.join(ROOT, 'specs', 'baseline_obligations.json'), 'w'), indent=1, sort_keys=True)
         fb = load_fn_baseline()
-        for q, fm in fn_meta.items(): fb[q] = fm['sha256']
+        for q, fm in fn_meta.items(): fb[q] = {'sha': fm['sha256'], 'body': fm.get('body_sha')}
         json.dump(fb, open(os.path.join(ROOT, 'specs', 'baseline_functions.json'), 'w'), indent=1, sort_keys=True)
     # ---- thorough tier: things that can only lower confidence in the evidence, never raise an alarm ----
     thorough = {}
